@@ -10,6 +10,7 @@ import Ivg.Gen.Tie.Code.Encoder3
 import Ivg.Gen.Tie.Code.Encoder4
 import Ivg.Gen.Tie.Code.Encoder5
 import Ivg.Gen.Tie.Code.Encoder6
+import Ivg.Gen.Tie.Code.Encoder7
 import Ivg.Obligations
 /-!
 # C10 — the Encoder reports an error exactly when the call protocol was violated
@@ -253,4 +254,5 @@ end Ivg.Props.C10
   Ivg.Gen.Tie.reset_code_tie_state,
   Ivg.Gen.Tie.wfEnc_init,
   Ivg.Gen.Tie.wfEnc_step,
-  Ivg.Gen.Tie.wfEnc_runOps]
+  Ivg.Gen.Tie.wfEnc_runOps,
+  Ivg.Gen.Tie.scratch_readback, Ivg.Gen.Tie.setNReg_code_tie, Ivg.Gen.Tie.setNReg_code_tie_state]
